@@ -25,6 +25,12 @@ Round-3 extension (harness/props/C18.audit.md):
 * shift: detectors with a dimension of 1, modes nearest / bicubic (oracle), non-integer origins
   (informational comparison with the model of C18_shift_general_exact; never a VIOLATION: the
   property speaks about integer-valued origins only).
+
+Round 4 (translator tie, harness/translate_C18.py): on every run the CURRENT source of calculate_origin, shift_origin_to,
+fit_origin_background, _set_intensities_com (both paths), SimpleBatcher.__iter__, fit_origin and the three curve_fit
+families is executed symbolically into build/C18/Gen_C18.v and coq/gen_proofs/C18_GenProofs.v / C18_GenProperties.v
+prove gen_* = C18_Model.v for all arguments (worker thread, joined before the first model evaluation); a sample of
+the com / shift / family cases is also evaluated through gen_* and judged by the same comparators (cross-test).
 """
 from __future__ import annotations
 
@@ -115,11 +121,20 @@ TOL_SHIFT_REL = 2.0 ** -16
 # ------------------------------------------------------------------------------------------
 # printers / parser glue
 
-def coq_vals(ctx: Ctx, name, exprs, shard):
-    """ctx.coq_eval, with Coq's `(-5)%Z` rendering of negative numerals normalised first"""
+# state of the translator tie of this run (harness/translate_C18.run_tie): the cross-test needs Gen_C18.vo
+GEN = {"gen_compiled": False, "tie_ok": False}
+
+
+def coq_vals(ctx: Ctx, name, exprs, shard, gen=False):
+    """ctx.coq_eval, with Coq's `(-5)%Z` rendering of negative numerals normalised first.
+    gen=True: the same expressions evaluated through the TRANSLATED functions (cross-test)"""
     import re
     from ..common import parse_coq_value
-    raw = ctx.coq_eval(name, PRE, exprs, shard=shard, parse=False)
+    if gen:
+        from ..translate_C18 import GEN_FLAGS, gen_preamble
+        raw = ctx.coq_eval(name, gen_preamble(PRE), exprs, shard=shard, parse=False, extra_flags=GEN_FLAGS(ctx))
+    else:
+        raw = ctx.coq_eval(name, PRE, exprs, shard=shard, parse=False)
     out = []
     for v in raw:
         v = re.sub(r"\s+", " ", v)
@@ -157,6 +172,58 @@ def agrees(v: float, fr: Fraction) -> bool:
     if f32_exact(fr):
         return Fraction(float(v)) == fr
     return close(v, fr)
+
+
+_TIE_FUTURE = []
+
+
+def tie_join(ctx: Ctx):
+    """the translator tie runs in a worker thread (coqc subprocesses) while the implementation cases are executed"""
+    while _TIE_FUTURE:
+        fut = _TIE_FUTURE.pop()
+        try:
+            GEN.update(fut.result())
+        except Exception as e:  # noqa
+            ctx.broken_obligation = "; ".join(filter(None, [ctx.broken_obligation, "translator tie could not run: %r" % (e,)]))
+
+
+def cross_test(ctx: Ctx, name, items, shard, judge, replay_of):
+    """translator cross-test: the expressions of `items` (index, expr) evaluated through the functions TRANSLATED from
+    the current source (gen_*) and judged against the implementation's output by the same comparator as the model.
+    Returns a function to call after the model evaluation (the Coq processes of both run side by side)."""
+    from concurrent.futures import ThreadPoolExecutor
+    tie_join(ctx)
+    rec = ctx.cov.setdefault("translator_cross_test", {})
+    if not GEN["gen_compiled"] or not items:
+        rec[name] = "skipped (no generated file)" if items else 0
+        return lambda: None
+    ex = ThreadPoolExecutor(max_workers=1)
+    fut = ex.submit(coq_vals, ctx, name + "_gen", [e for _, e in items], shard, True)
+
+    def finish():
+        try:
+            gvals = fut.result()
+        except RuntimeError as e1:          # a coqc process died (e.g. killed under memory pressure): one retry
+            try:
+                gvals = coq_vals(ctx, name + "_gen", [e for _, e in items], shard, True)
+            except RuntimeError as e2:
+                if not GEN["tie_ok"]:
+                    raise
+                # the tie theorems of this run hold (gen_* = model for all arguments), so the model's correspondence
+                # already speaks about the translated functions; the redundant cross-test is recorded as not completed
+                rec[name] = "not completed (coqc failed twice: %s / %s)" % (str(e1)[:80], str(e2)[:80])
+                ex.shutdown()
+                return
+        ex.shutdown()
+        nbad = 0
+        for (i, _), gv in zip(items, gvals):
+            for key, what in judge(i, gv):
+                nbad += 1
+                ctx.violation("translator-cross-test-" + name, "the function translated from the current source (gen_*) and "
+                              "the implementation disagree [%s]: %s" % (key, what), replay_of(i), found_input=False)
+        rec[name] = {"instances": len(items), "disagreements": nbad}
+        ctx.cov["traces_validated_against_impl"] += len(items)
+    return finish
 
 
 # ------------------------------------------------------------------------------------------
@@ -510,7 +577,10 @@ def check_com(ctx: Ctx):
         ctx.count(("com", json.dumps(case, sort_keys=True)), nontrivial=asym and case["H"] != case["W"])
         for key, what in com_oracle(case, obs):
             ctx.violation(key, what, dict(case))
+    xt = cross_test(ctx, "com", [(i, exprs[i]) for i in range(len(cases)) if i % (4 if ctx.quick else 3) == 0], 2 if ctx.quick else 6,
+                    lambda i, gv: com_correspond(cases[i], obs_all[i], gv), lambda i: dict(cases[i]))
     vals = coq_vals(ctx, "com", exprs, 8)
+    xt()
     nd = 0
     for case, obs, v in zip(cases, obs_all, vals):
         ctx.cov["traces_validated_against_impl"] += len(obs["origin"]) + len(obs) - 2 + len(obs["history"])
@@ -645,7 +715,22 @@ def lsq_case_run(ctx: Ctx, case):
     assert all(Fraction(float(v)) == v for k in range(2) for row in exact[k] for v in row)
     with warnings.catch_warnings():
         warnings.simplefilter("ignore")       # OptimizeWarning: covariance not estimated (exact data)
-        fr, fc, rr, rc_ = pu.fit_origin((g[0], g[1]), mask=np.ones((Rn, Cn), bool), fit_function=ff)
+        try:
+            fr, fc, rr, rc_ = pu.fit_origin((g[0], g[1]), mask=np.ones((Rn, Cn), bool), fit_function=ff)
+        except RuntimeError as e:
+            # scipy's curve_fit raises "Optimal parameters not found" when MINPACK stops with info 8 (residual orthogonal to
+            # the Jacobian to machine precision).  Seen (about 0.3 % of the exact-data cases) only where the family is not
+            # identifiable on the scan grid (parabola / bezier_two on a scan with fewer than 3 rows or columns: x^2 = x on
+            # {0, 1}; plane on a single row / column): every minimiser still reproduces the data (C18_lsq_fit_exact), but
+            # which termination code the solver reports there is not a property clause -> informational, not judged.
+            need = 2 if ff == "plane" else 3
+            if min(Rn, Cn) < need:
+                ctx.cov["lsq_rank_deficient_solver_raised"] = ctx.cov.get("lsq_rank_deficient_solver_raised", 0) + 1
+                ctx.dist("fit/lsq/solver-raised-on-rank-deficient-grid(informational)")
+                return [], None, None
+            return [("lsq-fit-raises", "fit_origin(fit_function=%r) of data lying exactly on a %s surface (coefficients %s, "
+                     "%dx%d scan: the family is identifiable on this grid) raises %s: %s"
+                     % (ff, fam, case["coef"], Rn, Cn, type(e).__name__, str(e)[:160]))], None, None
     scale = max(1.0, float(np.abs(g[0]).max()), float(np.abs(g[1]).max()))
     err = max(float(np.abs(fr - g[0]).max()), float(np.abs(fc - g[1]).max()))
     ctx.cov["lsq_fit_max_rel_err"] = max(ctx.cov.get("lsq_fit_max_rel_err", 0.0), err / scale)
@@ -915,7 +1000,10 @@ def check_fits(ctx: Ctx):
             exprs.append(expr)
             posts.append(post)
             owners.append(ci)
+    xt = cross_test(ctx, "fit", [(k, e) for k, e in enumerate(exprs) if e.startswith("fam_case") and (not ctx.quick or k % 2 == 0)], 3,
+                    lambda k, gv: posts[k](gv), lambda k: dict(cases[owners[k]]))
     vals = coq_vals(ctx, "fit", exprs, 6)
+    xt()
     nd = 0
     for v, post, ci in zip(vals, posts, owners):
         for key, what in post(v):
@@ -1109,7 +1197,10 @@ def check_shift(ctx: Ctx):
                                                             (o[1] - case["coord"][1]) % case["W"] for o in case["org"]))
         for key, what in shift_oracle(case, obs):
             ctx.violation(key, what, dict(case))
+    xt = cross_test(ctx, "shift", [(i, exprs[i]) for i, c in enumerate(cases) if c["sub"] != "fractional" and i % (3 if ctx.quick else 2) == 0], 2 if ctx.quick else 6,
+                    lambda i, gv: shift_correspond(cases[i], obs_all[i], gv), lambda i: dict(cases[i]))
     vals = coq_vals(ctx, "shift", exprs, 6)
+    xt()
     nd = 0
     for case, obs, v in zip(cases, obs_all, vals):
         if case["sub"] == "fractional":
@@ -1183,17 +1274,25 @@ def run(ctx: Ctx):
     ]
     ctx.cov["trusted_base"] += [
         "Coq 8.16.1 kernel incl. vm_compute (used to run the model); no native_compute",
-        "hand-written model coq/model/C18_Model.v + coq/lib/C18_QTensor.v tied to /repo by this correspondence run",
+        "hand-written model coq/model/C18_Model.v + coq/lib/C18_QTensor.v tied to /repo by this correspondence run and, for "
+        "the anchored functions, by the translator tie theorems of coq/gen_proofs/C18_GenProperties.v (re-proved on every run)",
         "harness/props/C18.py (generators, float64 reference, Python->Coq printers), harness/common.py",
         "theorems are over Q: the plane-fit theorem covers every rational multiple of the normal (the real unit "
         "eigenvector is in general irrational; the algebra is scale invariant)",
     ]
     ctx.proofs_or_violation()
+    # round 4: the anchored functions translated from the CURRENT source and tied to the model by theorems re-proved on
+    # this run (worker thread: its coqc processes run while the implementation cases execute; joined by tie_join)
+    from concurrent.futures import ThreadPoolExecutor
+    from ..translate_C18 import run_tie
+    GEN.update({"gen_compiled": False, "tie_ok": False})
+    _TIE_FUTURE.append(ThreadPoolExecutor(max_workers=1).submit(run_tie, ctx))
     import torch  # noqa: F401  (import cost outside the timed sections)
     torch.set_num_threads(2)
     check_com(ctx)
     check_fits(ctx)
     check_shift(ctx)
+    tie_join(ctx)
 
 
 def replay(ctx: Ctx, path):
